@@ -2,7 +2,7 @@ use crate::context::{ElementMap, TransformerContext};
 use crate::element::SvgElement;
 use crate::errors::{Result, SvgdxError};
 use crate::events::{InputEvent, InputList, OutputEvent, OutputList};
-use crate::position::{BoundingBox, Position};
+use crate::position::{BoundingBox, Position, Size};
 use crate::transform::{process_events, EventGen};
 use crate::types::ElRef;
 
@@ -98,6 +98,12 @@ impl EventGen for ReuseElement {
             instance_element = SvgElement::new("g", &[]).with_attrs_from(&instance_element);
         }
 
+        // The size which relative positioning of the reuse element goes by is that of
+        // the instance, evaluated with the reuse element's own variables.
+        if let Some(Size(w, h)) = instance_size {
+            reuse_element.set_default_attr("width", &crate::types::fstr(w));
+            reuse_element.set_default_attr("height", &crate::types::fstr(h));
+        }
         // TODO: This isn't ideal. resolve_position() is needed to handle
         // relpos positioning (`xy="#a|h"` etc), but the Position-based
         // stuff fully handles other positioning. Should be unified.
